@@ -61,6 +61,17 @@ SliceOpt(a) ==
       [] a.k = "user" -> [a EXCEPT !.args = [i \in 1..Len(a.args) |-> SliceOpt(a.args[i])]]
       [] OTHER -> a
 ForLangO(lang, noptrslice, a) == IF lang = "go" /\ noptrslice THEN SliceOpt(Collapse(a)) ELSE ForLang(lang, a)
+\* the OBSERVED side: the same normalisation, where the name a container-instance mapping configures for Vec<u8> (nm, "" when there is none)
+\* stands for the slice it replaces - `*[]T` and `*Blob` for a double Option are read alike
+RECURSIVE SliceOptN(_, _)
+SliceOptN(a, nm) ==
+    CASE a.k \in {"opt", "undef"} -> (LET x == SliceOptN(a.e, nm) IN
+                                       IF x.k \in {"seq", "mapped"} \/ (nm # "" /\ x.k = "user" /\ x.n = nm) THEN x ELSE [k |-> "opt", e |-> x])
+      [] a.k = "seq" -> [k |-> "seq", e |-> SliceOptN(a.e, nm)]
+      [] a.k = "map" -> [k |-> "map", key |-> SliceOptN(a.key, nm), val |-> SliceOptN(a.val, nm)]
+      [] a.k = "user" -> [a EXCEPT !.args = [i \in 1..Len(a.args) |-> SliceOptN(a.args[i], nm)]]
+      [] OTHER -> a
+ForLangObs(lang, noptrslice, nm, a) == IF lang = "go" /\ noptrslice THEN SliceOptN(Collapse(a), nm) ELSE ForLang(lang, a)
 
 IsOpt(t) == Abs(t).k = "opt"
 Unopt(a) == IF a.k = "opt" THEN a.e ELSE a
